@@ -43,7 +43,11 @@ func runC02(r *Run) {
 
 // sliceRoots follows phis, append(first arg), slicing and conversions back to
 // the values a slice value may originate from.
-func sliceRoots(v ssa.Value) []ssa.Value {
+func sliceRoots(v ssa.Value) []ssa.Value { return sliceRootsTB(v, nil) }
+
+// sliceRootsTB: tb (optional) lets the walk see through phis that equal one operand at all their uses and follow a
+// field of a local struct to the values stored into it.
+func sliceRootsTB(v ssa.Value, tb *core.TermBuilder) []ssa.Value {
 	seen := map[ssa.Value]bool{}
 	var out []ssa.Value
 	var rec func(v ssa.Value)
@@ -54,15 +58,26 @@ func sliceRoots(v ssa.Value) []ssa.Value {
 		seen[v] = true
 		switch x := v.(type) {
 		case *ssa.Phi:
+			if tb != nil {
+				if sv := tb.Strip(x); sv != ssa.Value(x) {
+					rec(sv)
+					return
+				}
+			}
 			for _, e := range x.Edges {
 				rec(e)
 			}
 			return
 		case *ssa.Call:
 			if b, ok := x.Common().Value.(*ssa.Builtin); ok && b.Name() == "append" {
+				before := len(out)
 				rec(x.Common().Args[0])
 				if c, isC := x.Common().Args[0].(*ssa.Const); isC && c.Value == nil && len(x.Common().Args) == 2 && x.Common().Signature().Variadic() {
 					// append(nil, xs...) copies xs
+					rec(x.Common().Args[1])
+				} else if len(out) == before && tb != nil && len(x.Common().Args) == 2 && x.Common().Signature().Variadic() {
+					// the base has no origin of its own (a field that only ever holds the result of this append): the
+					// elements are those of the spread operand
 					rec(x.Common().Args[1])
 				}
 				return
@@ -71,6 +86,31 @@ func sliceRoots(v ssa.Value) []ssa.Value {
 			rec(x.X)
 			return
 		case *ssa.UnOp:
+			// load of a field of a local struct: follow every store into that field
+			if fa, ok := x.X.(*ssa.FieldAddr); ok && x.Op == token.MUL && tb != nil {
+				if al, isAl := tb.Strip(fa.X).(*ssa.Alloc); isAl {
+					n := 0
+					for _, blk := range tb.Fn.Blocks {
+						for _, ins := range blk.Instrs {
+							st, isSt := ins.(*ssa.Store)
+							if !isSt {
+								continue
+							}
+							sfa, isFA := st.Addr.(*ssa.FieldAddr)
+							if !isFA || sfa.Field != fa.Field {
+								continue
+							}
+							if sal, same := tb.Strip(sfa.X).(*ssa.Alloc); same && sal == al {
+								n++
+								rec(st.Val)
+							}
+						}
+					}
+					if n > 0 {
+						return
+					}
+				}
+			}
 			// load of an address-taken local: follow every store into it
 			if a, ok := x.X.(*ssa.Alloc); ok && x.Op == token.MUL {
 				n := 0
@@ -205,7 +245,7 @@ func (r *Run) checkSortedBeforeGroup(P string) {
 			a := c.Common().Args
 			pub := rff.TB.Of(a[1]).String()
 			var unp []string
-			for _, l := range sliceRoots(a[2]) {
+			for _, l := range sliceRootsTB(a[2], rff.TB) {
 				unp = append(unp, rff.TB.Of(l).String())
 			}
 			okPub := strings.Contains(pub, "$s.store") && strings.Contains(pub, ".Get(")
